@@ -1978,6 +1978,8 @@ class TestGraph(object):
                 r
                 for r in self.runner.previous_results
                 if re.search(test_node.bridged_form, r["name"])
+                # could already be added to a bridged node (counted once among the shared results)
+                and r not in test_node.shared_results
             ]
             logging.info(
                 f"Found {len(previous_results)} previous test results for {test_node}"
